@@ -16,7 +16,7 @@ RULE = ("one case = one model (three state types, num_visible 1..5, all biases n
         "every built-in observable (SigmaX/Y/Z with absolute False/True, NeighbourInteraction for c=1..n and both boundary "
         "conditions) is evaluated on the full basis (exact weighting), on a shuffled batch with repeats and on a single "
         "row. Non-trivial: all parameters non-zero; distinct by sha256 of parameters.")
-REQUIRED = ["states_used_before_with_other_parameters", "expectations_compared", "absolute_checks", "batch_consistency_checks", "protected_write_ops_inspected",
+REQUIRED = ["in_place_refill_checks", "states_used_before_with_other_parameters", "expectations_compared", "absolute_checks", "batch_consistency_checks", "protected_write_ops_inspected",
             "mixed_state_expectations", "pure_state_expectations"]
 ANCHOR_FILES = ["qucumber/observables/pauli.py", "qucumber/observables/interactions.py", "qucumber/observables/utils.py"]
 REACH = [
@@ -138,6 +138,25 @@ def run_case(case, ctx):
                               tags=dict(tags, obs=name.split("(")[0]), witness=wit)
             if not torch.equal(batch, bk):
                 ctx.violation("samples-modified", f"{name}.apply changed the {bname} sample array", tags=dict(tags, obs=name.split("(")[0]))
+    # history: the same observable instances applied again to the SAME tensor object after it was refilled in place
+    # (what Observable.statistics does with its chains): values must follow the current contents
+    buf = sp[rng.integers(0, N, size=min(N, 6))].clone()
+    for name, ob, op, ab in obs:
+        if ab or name not in plain:
+            continue
+        rows1 = rng.integers(0, N, size=buf.shape[0])
+        buf.copy_(sp[rows1])
+        v1 = ctx.lib(f"{name}.apply(buffer)", ob.apply, st, buf, tags=dict(tags, obs=name.split("(")[0]))
+        rows2 = rng.integers(0, N, size=buf.shape[0])
+        buf.copy_(sp[rows2])
+        v2 = ctx.lib(f"{name}.apply(buffer refilled in place)", ob.apply, st, buf, tags=dict(tags, obs=name.split("(")[0]))
+        ctx.count("in_place_refill_checks")
+        for vv, rr, what in ((v1, rows1, "first fill"), (v2, rows2, "after an in-place refill")):
+            ref = plain[name][rr]
+            if tuple(vv.shape) != (len(rr),) or np.any(np.abs(vv.numpy() - ref) > 1e-12 * (1 + np.abs(ref))):
+                ctx.violation("stale-buffer", f"{name}: values on a re-used sample buffer ({what}) are not those of its current rows",
+                              tags=dict(tags, obs=name.split("(")[0]), witness=wit)
+                break
     if gen.all_nonzero(am, None if ph is None else {k: v for k, v in ph.items() if k != "d"}):
         ctx.mark_nontrivial(gen.model_digest(kind, am, ph))
     ctx.seen("kind_n", (kind, nv))
